@@ -235,6 +235,8 @@ type interp struct {
 	leakVisible    bool // an EXIT handler fired and the frames it left shadow outer variables, or a raise followed
 	nestedHandlers bool // a raise found handlers in two or more frames
 	handlerRows    bool // a handler whose statement assigns a user variable fired
+	exitNested     bool // an EXIT handler fired for a condition raised in a block nested in the handler's block
+	untilNull      bool // an UNTIL condition evaluated to NULL
 }
 
 type ctl struct {
@@ -386,6 +388,9 @@ func (in *interp) stmt(s *Stmt) ctl {
 				return ctl{}
 			}
 			in.exitFired = true
+			if len(in.frames)-1 > d {
+				in.exitNested = true
+			}
 			for _, f := range in.frames[d:] {
 				for id := range f.vars {
 					for _, o := range in.frames[:d] {
@@ -440,6 +445,9 @@ func (in *interp) stmt(s *Stmt) ctl {
 			if prop {
 				return c
 			}
+			if in.eval(s.E).null {
+				in.untilNull = true
+			}
 			if leave || in.cond(s.E) {
 				break
 			}
@@ -492,6 +500,7 @@ func reference(cs *caseT) (map[int]value, string, *interp) {
 // ---------- generator ----------
 
 type genT struct {
+	forceBlockFirst bool // the next loop is a LOOP whose body is one shadowing block with ITERATE inside
 	raises   int
 	r        *lib.RNG
 	nextVar  int
@@ -506,6 +515,7 @@ type scopeInfo struct {
 	loopLbls  []int // enclosing loop labels (ITERATE/LEAVE targets)
 	blockLbls []int // enclosing block labels (LEAVE targets)
 	handler   bool  // a handler is active here
+	inRepeat  bool  // inside a REPEAT body (compiled twice): labelled LOOP / REPEAT in here hit the stale-label defect
 	noShadow  bool  // inside the block of an EXIT handler: declare only fresh variables (else the known scope leak shows)
 }
 
@@ -613,12 +623,15 @@ func (g *genT) stmts(sc *scopeInfo, depth, n int) []*Stmt {
 			s := &Stmt{K: "if", E: g.expr(sc, 2), Body: g.stmts(sc, depth-1, g.r.Range(1, 2))}
 			if g.r.Bool() {
 				s.Else = g.stmts(sc, depth-1, g.r.Range(1, 2))
+				if n := len(s.Else); s.Else[n-1].K == "block" && !g.r.Chance(1, 8) {
+					s.Else = append(s.Else, g.assign(sc)) // an ELSE ending with a block hits a known scope leak
+				}
 			}
 			out = append(out, s)
 		case 6:
 			// nested block with declarations (possibly shadowing)
 			l := g.label(false)
-			inner := &scopeInfo{vars: append([]int{}, sc.vars...), loopLbls: sc.loopLbls, blockLbls: sc.blockLbls, handler: sc.handler, noShadow: sc.noShadow}
+			inner := &scopeInfo{vars: append([]int{}, sc.vars...), loopLbls: sc.loopLbls, blockLbls: sc.blockLbls, handler: sc.handler, noShadow: sc.noShadow, inRepeat: sc.inRepeat}
 			if l != 0 {
 				inner.blockLbls = append(append([]int{}, sc.blockLbls...), l)
 			}
@@ -659,9 +672,18 @@ func (g *genT) stmts(sc *scopeInfo, depth, n int) []*Stmt {
 			g.nextVar++
 			ctr := 50 + g.nextVar // counters live in 50..99, never in sc.vars
 			l := g.label(true)
+			force := g.forceBlockFirst
+			g.forceBlockFirst = false
+			if force && l == 0 {
+				g.nextLbl++
+				l = g.nextLbl
+			}
 			bound := int64(g.r.Range(1, 4))
+			if force && bound < 2 {
+				bound = 2
+			}
 			zero := int64(0)
-			inner := &scopeInfo{vars: sc.vars, loopLbls: sc.loopLbls, blockLbls: sc.blockLbls, handler: sc.handler, noShadow: sc.noShadow}
+			inner := &scopeInfo{vars: sc.vars, loopLbls: sc.loopLbls, blockLbls: sc.blockLbls, handler: sc.handler, noShadow: sc.noShadow, inRepeat: sc.inRepeat}
 			if l != 0 {
 				inner.loopLbls = append(append([]int{}, sc.loopLbls...), l)
 			}
@@ -674,17 +696,36 @@ func (g *genT) stmts(sc *scopeInfo, depth, n int) []*Stmt {
 			if l == 0 && kind == 2 {
 				kind = 0 // LOOP needs a label to be left
 			}
+			if force {
+				kind = 2
+			}
+			if sc.inRepeat && kind != 0 && l != 0 && !force && !g.r.Chance(1, 10) {
+				kind = 0 // mostly avoid the known stale-label shape
+			}
+			if kind == 1 {
+				inner.inRepeat = true
+			}
 			switch kind {
 			case 0:
 				loop = &Stmt{K: "while", L: l, E: lt, Body: body}
 			case 1:
+				if !sc.inRepeat {
+					body = append([]*Stmt{inc}, g.stmts(inner, depth-1, g.r.Range(1, 3))...) // again, now knowing it is a REPEAT body
+				}
 				loop = &Stmt{K: "repeat", L: l, E: ge, Body: body}
 			default:
 				body = append([]*Stmt{inc, {K: "if", E: ge, Body: []*Stmt{{K: "leave", L: l}}}}, body[1:]...)
-				if g.r.Bool() {
+				if force || g.r.Bool() {
 					// the LOOP body is one BEGIN..END block that declares a (shadowing) variable; ITERATE from inside it
 					// jumps backwards onto the block's ScopeBegin
 					id := lib.Pick(g.r, sc.vars)
+					if force {
+						for _, v := range sc.vars { // shadow a local that is read after the loop
+							if v < 100 {
+								id = v
+							}
+						}
+					}
 					if id >= 100 || sc.noShadow {
 						g.nextVar++
 						id = g.nextVar
@@ -709,6 +750,36 @@ func (g *genT) stmts(sc *scopeInfo, depth, n int) []*Stmt {
 	return out
 }
 
+// exitNested builds: BEGIN DECLARE EXIT HANDLER ... SET v = c; stmts; BEGIN [DECLARE fresh]; stmts; <raise>; stmts; END; stmts; END
+// -- the statements after the raise and after the nested block must not run
+func (g *genT) exitNested(sc *scopeInfo, depth int) *Stmt {
+	inner := &scopeInfo{vars: append([]int{}, sc.vars...), loopLbls: sc.loopLbls, blockLbls: sc.blockLbls, handler: true, noShadow: true}
+	hv := sc.vars[0]
+	for _, v := range sc.vars {
+		if v < 100 {
+			hv = v
+		}
+	}
+	hdl := &Stmt{K: "handler", Exit: true, ID: hv, E: &Expr{K: "const", Z: int64(g.r.Range(10, 19))}}
+	saved := g.raises
+	g.raises = 2 // no other raise inside
+	var nested []*Stmt
+	if g.r.Bool() {
+		g.nextVar++
+		z := int64(g.r.Range(-2, 5))
+		nested = append(nested, &Stmt{K: "declare", ID: g.nextVar, Z: &z})
+	}
+	nested = append(nested, g.stmts(inner, depth-1, g.r.Range(0, 2))...)
+	nested = append(nested, &Stmt{K: "raise", Dup: g.r.Bool()})
+	nested = append(nested, g.assign(inner))
+	body := []*Stmt{hdl}
+	body = append(body, g.stmts(inner, depth-1, g.r.Range(0, 2))...)
+	body = append(body, &Stmt{K: "block", Body: nested})
+	body = append(body, g.assign(inner), g.assign(inner))
+	g.raises = saved + 1
+	return &Stmt{K: "block", Body: body}
+}
+
 func gen(r *lib.RNG) (*caseT, map[string]bool) {
 	g := &genT{r: r, nUsers: 3, features: map[string]bool{}}
 	cs := &caseT{NUsers: 3, Params: []int64{int64(r.Range(-2, 6)), int64(r.Range(0, 3))}}
@@ -720,7 +791,22 @@ func gen(r *lib.RNG) (*caseT, map[string]bool) {
 		body = append(body, &Stmt{K: "declare", ID: g.nextVar, Z: &z})
 		sc.vars = append(sc.vars, g.nextVar)
 	}
-	body = append(body, g.stmts(sc, 3, r.Range(2, 5))...)
+	shapeA, shapeB := r.Intn(100) < 16, r.Intn(100) < 16
+	body = append(body, g.stmts(sc, 3, r.Range(1, 3))...)
+	if shapeA {
+		g.forceBlockFirst = true
+		for try := 0; g.forceBlockFirst && try < 200; try++ { // draw statements until one contains the forced loop
+			st := g.stmts(sc, 2, 1)
+			if !g.forceBlockFirst {
+				body = append(body, st...)
+			}
+		}
+		g.forceBlockFirst = false
+	}
+	if shapeB {
+		body = append(body, g.exitNested(sc, 2))
+	}
+	body = append(body, g.stmts(sc, 3, r.Range(1, 2))...)
 	// make the final values of the locals observable
 	for i, v := range sc.vars {
 		if i < 3 {
@@ -923,7 +1009,7 @@ func run(c *lib.Ctx, cs *caseT) {
 	}
 	select {
 	case res = <-done:
-	case <-time.After(10 * time.Second):
+	case <-time.After(6 * time.Second):
 		timedOut = true
 		cancel()
 		select {
@@ -997,9 +1083,18 @@ func run(c *lib.Ctx, cs *caseT) {
 	if in.handlerRows {
 		fs = append(fs, "handler-assigns-user-variable")
 	}
+	if in.untilNull {
+		fs = append(fs, "until-null")
+	}
+	if in.exitNested {
+		c.Count("shape:exit-handler-fired-from-nested-block")
+	}
+	if loopBlockFirst(cs.Body) {
+		c.Count("shape:loop-body-is-shadowing-block-with-iterate")
+	}
 	// one root cause per signature: the first applicable shape in this order names the disagreement
 	fsig = "plain"
-	for _, f := range []string{"handler-assigns-user-variable", "reused-label", "nested-handlers", "exit-handler-leak", "leave-block", "else-ends-with-block", "declare-null"} {
+	for _, f := range []string{"handler-assigns-user-variable", "reused-label", "nested-handlers", "exit-handler-leak", "until-null", "leave-block", "else-ends-with-block", "declare-null"} {
 		for _, g := range fs {
 			if g == f {
 				fsig = f
@@ -1026,7 +1121,7 @@ func run(c *lib.Ctx, cs *caseT) {
 	c.PredChecked()
 	switch {
 	case timedOut:
-		c.PredFail(id, "call-does-not-return/"+fsig, fmt.Sprintf("CALL does not return within 10 s; direct interpretation: %s; %s", cs.Ref, create), cs)
+		c.PredFail(id, "call-does-not-return/"+fsig, fmt.Sprintf("CALL does not return within 6 s; direct interpretation: %s; %s", cs.Ref, create), cs)
 	case status == "error" && obs == "RErr":
 		c.Count("agree-error")
 	case status == "error":
@@ -1038,6 +1133,29 @@ func run(c *lib.Ctx, cs *caseT) {
 	default:
 		c.Count("agree")
 	}
+}
+
+// loopBlockFirst: some LOOP's first body statement is a block that declares a variable and contains ITERATE of that loop
+func loopBlockFirst(ss []*Stmt) bool {
+	for _, s := range ss {
+		if s.K == "loop" && len(s.Body) > 0 && s.Body[0].K == "block" && len(s.Body[0].Body) > 0 && s.Body[0].Body[0].K == "declare" &&
+			containsIterate(s.Body[0].Body, s.L) {
+			return true
+		}
+		if loopBlockFirst(s.Body) || loopBlockFirst(s.Else) {
+			return true
+		}
+	}
+	return false
+}
+
+func containsIterate(ss []*Stmt, l int) bool {
+	for _, s := range ss {
+		if (s.K == "iterate" && s.L == l) || containsIterate(s.Body, l) || containsIterate(s.Else, l) {
+			return true
+		}
+	}
+	return false
 }
 
 func hasUserHandler(ss []*Stmt) bool {
@@ -1149,6 +1267,14 @@ func main() {
 				{K: "declare", ID: 1, Z: i64(1)},
 				{K: "block", Body: []*Stmt{{K: "declare", ID: 1, Z: i64(2)},
 					{K: "if", E: k(1), Body: []*Stmt{{K: "setuser", ID: 1, E: k(1)}}, Else: []*Stmt{{K: "block", Body: []*Stmt{{K: "setuser", ID: 1, E: k(2)}}}}}}},
+				{K: "setuser", ID: 0, E: v(1)}}}}},
+			// UNTIL evaluating to NULL: the compiled IF NOT cond leaves the loop (Coq: until_null_prog)
+			&caseT{NUsers: 3, Params: []int64{0, 0}, Body: []*Stmt{{K: "block", Body: []*Stmt{
+				{K: "declare", ID: 1, Z: i64(0)}, {K: "declare", ID: 2, Z: i64(0)},
+				{K: "set", ID: 2, E: &Expr{K: "null"}},
+				{K: "repeat", E: bin("Eq", v(2), k(1)), Body: []*Stmt{
+					{K: "set", ID: 1, E: bin("Add", v(1), k(1))},
+					{K: "if", E: bin("Le", k(3), v(1)), Body: []*Stmt{{K: "set", ID: 2, E: k(1)}}}}},
 				{K: "setuser", ID: 0, E: v(1)}}}}},
 			// unhandled condition: CALL must fail
 			&caseT{NUsers: 3, Params: []int64{0, 0}, Body: []*Stmt{{K: "block", Body: []*Stmt{
